@@ -458,6 +458,37 @@ def name_clashes_and_duplicate_entries_are_settled_one_way(F, res, rule="T11"):
            (bool(firstish) or loops) and not lastish, where=sp.loc(), how="selecting calls: first-like %s, last-like %s, explicit loop %s" % (firstish, lastish, loops))
 
 
+def one_packages_directory_per_project(F, res, rule="T12"):
+    """T12: what a project depends on is fetched into the project's own `build/packages` - also what its *path dependencies* depend on:
+    `gleam deps download` in app/ puts gleam_stdlib, which core = { path = "../core" } needs, into app/build/packages. The function that
+    assembles the package graph therefore carries that directory down its recursion unchanged: a recursive call hands on the directory
+    parameter it was given, and the root of a fetched dependency is that directory joined with the dependency's name - not a
+    `build/packages` below the package being assembled, which a path dependency does not have (`import gleam/list` inside the path
+    dependency resolved to nothing unless the name of another dependency happened to sort first)."""
+    f = F.fns.get("glas::server::Server::assemble_graph")
+    if f is None or not f.blocks:
+        res.anchor_missing(rule, "glas::server::Server::assemble_graph")
+        return
+    d = FL.Defs(f)
+    rec = [(b, t) for b, t in f.calls() if (callee(t) or "") == f.path]
+    pathy = [i for i in range(1, f.d["arg_count"] + 1) if "Path" in (f.local_ty(i) or "") and "mut" not in (f.local_ty(i) or "")]
+    carried = [i for i in pathy if rec and all(d.origin_op(t["args"][i - 1]).get("k") == "arg" and d.origin_op(t["args"][i - 1]).get("n") == i for _b, t in rec)]
+    # the root handed to a recursive call: joined onto the carried directory (a fetched package) or read off the manifest (a path dependency)
+    bad = []
+    for b, t in rec:
+        for i in pathy:
+            if i in carried:
+                continue
+            dep = FL.depends(F, f, d, t["args"][i - 1], use_bb=b)
+            below_self = any("build/packages" in x.replace("\\", "/") for x in dep["strs"])
+            if below_self:
+                bad.append("line %s: the dependency is looked for in a build/packages made here (%s)" % (t["ln"], sorted(dep["strs"])[:3]))
+    res.floor("recursive calls of assemble_graph", len(rec), 2)
+    res.ob(rule, "assemble/one-packages-dir", "assemble_graph hands the project's packages directory down unchanged and looks fetched dependencies up in it",
+           bool(carried) and not bad, where=f.loc(), how="directory parameter(s) carried unchanged: %s" % carried if carried and not bad else
+           ("; ".join(bad) or "no Path parameter is handed on unchanged by the recursive calls: every package looks below itself"))
+
+
 def run(F, res, tier):
     direct_dependencies_only(F, res)
     lookups_go_through_visible_modules(F, res)
@@ -466,6 +497,7 @@ def run(F, res, tier):
     every_project_is_assembled_with_names_of_its_own(F, res)
     packages_are_not_identified_by_name(F, res)
     name_clashes_and_duplicate_entries_are_settled_one_way(F, res)
+    one_packages_directory_per_project(F, res)
     from rules import c08 as _c08, c15 as _c15, c05 as _c05, c07 as _c07
     _c08.locality_comes_from_the_registered_path(F, res, rule="T4")      # V9 + V10 (longest root first)
     _c15.files_lie_below_their_root(F, res, rule="T4")                  # M10
